@@ -192,11 +192,13 @@ type Parser struct {
 	currFuncReturnTypes []ValueType         // Return types of the function which is currently parsed.
 	usedFuncs           map[string][]string // Stores which function (key) calls which functions (values).
 	importing           []string            // Stores the files which are currently being imported (to detect import cycles).
+	importedFiles       map[string]bool     // Stores the prefixes of the files which have already been added to the program (shared between all parsers of a program).
 }
 
 func New() Parser {
 	return Parser{
-		usedFuncs: map[string][]string{},
+		usedFuncs:     map[string][]string{},
+		importedFiles: map[string]bool{},
 	}
 }
 
@@ -643,6 +645,7 @@ func (p *Parser) evaluateProgram() (Program, error) {
 func (p *Parser) evaluateImports(ctx context) ([]Statement, error) {
 	var nextToken lexer.Token
 	statementsTemp := []Statement{}
+	emitTemp := []bool{} // Stores for each temporary statement if it shall be added to the program.
 
 	// Skip empty characters.
 	for {
@@ -715,6 +718,7 @@ func (p *Parser) evaluateImports(ctx context) ([]Statement, error) {
 			}
 			importParser := New()
 			importParser.importing = append(slices.Clone(p.importing), p.path)
+			importParser.importedFiles = p.importedFiles
 			importedProg, err := importParser.parse(absPath, true)
 
 			if err != nil {
@@ -729,7 +733,15 @@ func (p *Parser) evaluateImports(ctx context) ([]Statement, error) {
 			if err != nil {
 				return nil, err
 			}
-			statementsTemp = append(statementsTemp, importedProg.Body()...)
+			// A file which is reached via several imports (or aliases) is only added once to the program.
+			// Its statements are still required to make its public functions known to this file.
+			alreadyImported := p.importedFiles[importParser.prefix]
+			p.importedFiles[importParser.prefix] = true
+
+			for _, statement := range importedProg.Body() {
+				statementsTemp = append(statementsTemp, statement)
+				emitTemp = append(emitTemp, !alreadyImported)
+			}
 
 			// Import-parser funcs with current parser funcs.
 			for funcName, usedFuncs := range importParser.usedFuncs {
@@ -766,7 +778,7 @@ func (p *Parser) evaluateImports(ctx context) ([]Statement, error) {
 	statements := []Statement{}
 
 	// Add functions add variables.
-	for _, statement := range statementsTemp {
+	for i, statement := range statementsTemp {
 		exists := false
 
 		switch statement.StatementType() {
@@ -790,7 +802,7 @@ func (p *Parser) evaluateImports(ctx context) ([]Statement, error) {
 		}
 
 		// Prevent code duplication.
-		if !exists {
+		if !exists && emitTemp[i] {
 			statements = append(statements, statement)
 		}
 	}
